@@ -32,6 +32,7 @@ struct Exec {
   std::vector<uint64_t> hashes;
   std::vector<uint64_t> parts; // 4 per choice point
   long steps = 0;
+  bool complete = false; // the child's record arrived in full (a truncated record is never interpreted)
   std::string obs;   // observation string written by the scenario (monitor verdicts, output digest)
   std::string fatal; // description of blocked threads etc.
 };
@@ -47,6 +48,7 @@ inline void write_all(int fd, const void *p, size_t n) {
 inline void child_write(int outcome, const std::string &extra) {
   if (g_written) return;
   g_written = 1;
+  alarm(0); // the record must not be cut short by the wall-clock alarm (its handler exits the process)
   int32_t hdr[6];
   std::string obs = g_obs ? *g_obs : std::string();
   hdr[0] = outcome; hdr[1] = vs_npts; hdr[2] = (int32_t)vs_steps; hdr[3] = (int32_t)obs.size(); hdr[4] = (int32_t)extra.size(); hdr[5] = 0x5a5a;
@@ -57,7 +59,9 @@ inline void child_write(int outcome, const std::string &extra) {
   write_all(g_wfd, obs.data(), obs.size());
   write_all(g_wfd, extra.data(), extra.size());
 }
+static void (*g_pre_fatal)(int code) = nullptr; // harness hook: last chance to put partial monitor verdicts into the observation string
 inline void on_fatal(int code) {
+  if (g_pre_fatal) g_pre_fatal(code);
   char buf[512];
   vs_describe(buf, sizeof buf);
   int oc = code == VS_DEADLOCK ? OC_DEADLOCK : code == VS_HORIZON ? OC_HORIZON : code == VS_DIVERGE ? OC_DIVERGE : code == VS_SLEEPBLOCKED ? OC_SLEEPBLOCKED : OC_TOOMANY;
@@ -122,7 +126,9 @@ inline void parse_exec(Exec &r, const std::string &blob, int status) {
   size_t off = 0;
   auto rd = [&](void *buf, size_t n) { if (off + n > blob.size()) return false; memcpy(buf, blob.data() + off, n); off += n; return true; };
   int32_t hdr[6];
-  if (rd(hdr, sizeof hdr) && hdr[5] == 0x5a5a) {
+  if (rd(hdr, sizeof hdr) && hdr[5] == 0x5a5a && hdr[1] >= 0 && hdr[3] >= 0 && hdr[4] >= 0 &&
+      blob.size() == sizeof hdr + (size_t)hdr[1] * (sizeof(vs_pt_t) + 5 * sizeof(uint64_t)) + (size_t)hdr[3] + (size_t)hdr[4]) {
+    r.complete = true;
     r.outcome = hdr[0];
     r.pts.resize(hdr[1]);
     r.hashes.resize(hdr[1]);
@@ -138,7 +144,8 @@ inline void parse_exec(Exec &r, const std::string &blob, int status) {
   }
   if (WIFSIGNALED(status)) r.sig = WTERMSIG(status); else r.exitcode = WEXITSTATUS(status);
   if (r.outcome == -1) {
-    if (r.sig) { r.outcome = OC_SIGNAL; r.fatal = "killed by signal " + std::to_string(r.sig); }
+    if (!r.sig && r.exitcode == 47) { r.outcome = OC_TIMEOUT; r.fatal = "wall-clock alarm"; }
+    else if (r.sig) { r.outcome = OC_SIGNAL; r.fatal = "killed by signal " + std::to_string(r.sig); }
     else { r.outcome = OC_EXIT; r.fatal = "exit status " + std::to_string(r.exitcode); }
   }
 }
@@ -165,6 +172,15 @@ inline Exec run_one(const std::vector<int> &prefix, const Config &cfg, const Sce
   Exec r;
   parse_exec(r, blob, status);
   return r;
+}
+// a child that produced no complete record and did not die of a signal / the alarm (e.g. the machine killed it, a pipe error): the
+// execution is deterministic, so it is simply run again; if that keeps happening the explorer gives up with an internal error (exit 93),
+// which the driver reports as "cannot decide" - never as a verdict
+inline bool record_usable(const Exec &r) { return r.complete || r.outcome == OC_SIGNAL || r.outcome == OC_TIMEOUT || (r.outcome == OC_EXIT && r.exitcode != 0); }
+inline Exec run_one_checked(const std::vector<int> &prefix, const Config &cfg, const Scenario &sc) {
+  for (int attempt = 0; attempt < 3; attempt++) { Exec r = run_one(prefix, cfg, sc); if (record_usable(r)) return r; }
+  fprintf(stderr, "explorer: no complete record from the child after 3 attempts\n");
+  _exit(93);
 }
 // A small forked "zygote" serves executions for a long search: fork() is proportional to the parent's memory, and the
 // explorer's own tables (state sets, successor map) grow into hundreds of MB while the zygote stays small.
@@ -258,7 +274,7 @@ struct Explorer {
     if (out_of_budget()) return;
     bool mine = true;
     Exec x;
-    if (!(zy.pid > 0 && zy.run(prefix, x))) x = run_one(prefix, cfg, sc);
+    if (!(zy.pid > 0 && zy.run(prefix, x) && record_usable(x))) x = run_one_checked(prefix, cfg, sc);
     if (x.outcome == OC_DIVERGE) { fprintf(stderr, "explorer: replay divergence (nondeterminism not under control)\n"); _exit(94); }
     if (depth == 0 && cfg.shard != 0) mine = false; // the root execution is accounted by shard 0
     if (mine) account(x, prefix);
